@@ -16,6 +16,14 @@ type refState struct {
 	used     map[string]bool
 	inDomain bool
 	userSeen bool // a step that is not part of the default registration has been seen
+	ghosts   []ghost // twin of C17_Check.r_ghosts
+}
+
+// a callback N that had asked to run Before/After the live callback T (registered at step TReg) was removed
+type ghost struct {
+	T    string
+	TReg int
+	N    string
 }
 
 func newRef() *refState { return &refState{used: map[string]bool{}, inDomain: true} }
@@ -43,7 +51,8 @@ func (r *refState) apply(i int, s Step, skipTx bool) {
 		if s.Tx && skipTx {
 			return // guarded out by Match: never part of the pipeline (by design)
 		}
-		if s.Name == "" || s.Name == "*" || r.used[s.Name] {
+		// a live name may not be registered again (the code warns "duplicated callback"); a removed one may
+		if s.Name == "" || s.Name == "*" || r.find(s.Name) >= 0 {
 			r.inDomain = false
 		}
 		r.used[s.Name] = true
@@ -60,6 +69,15 @@ func (r *refState) apply(i int, s Step, skipTx bool) {
 		if k < 0 || s.Before != "" || s.After != "" || s.Tx {
 			r.inDomain = false
 			return
+		}
+		e := r.live[k]
+		for _, tn := range []string{e.Before, e.After} {
+			if tn == "" || tn == "*" || tn == e.Name {
+				continue
+			}
+			if j := r.find(tn); j >= 0 {
+				r.ghosts = append(r.ghosts, ghost{tn, r.live[j].Reg, e.Name})
+			}
 		}
 		r.live = append(r.live[:k:k], r.live[k+1:]...)
 	}
@@ -320,6 +338,13 @@ func (r *refState) class() string {
 			}
 		}
 	}
+	// stale-request: a removed callback n had asked to run Before/After t; t is still the same registration
+	// and a new callback is registered under the name n
+	for _, g := range r.ghosts {
+		if j := r.find(g.T); j >= 0 && r.live[j].Reg == g.TReg && r.find(g.N) >= 0 {
+			return "stale-request"
+		}
+	}
 	if selfT {
 		return "self-target"
 	}
@@ -331,11 +356,11 @@ func (r *refState) class() string {
 
 // classCode: the constructor number of C17_Known.kclass
 var classCode = map[string]int{"": 0, "self-target": 1, "named-cycle": 2, "star-unsat": 3, "star-replace": 4,
-	"after-overwritten": 5, "self-target-silent": 6}
+	"after-overwritten": 5, "self-target-silent": 6, "stale-request": 7}
 
 // star-replace (fixed by /repo e28c215) and self-target (fixed by 591f9f1) are labels only
 var knownClass = map[string]bool{"self-target-silent": true, "named-cycle": true, "star-unsat": true,
-	"after-overwritten": true}
+	"after-overwritten": true, "stale-request": true}
 
 // sigOf: the class of the first in-domain step of the history whose state is in a KNOWN class ("" = none);
 // computed from the input only (twin of C17_CheckK.first_known).  Also returns the distinct classes and
